@@ -132,7 +132,7 @@ class CallMixin:
             # attribute store on an opaque object (e.g. e.args = ...): event
             st.emit("setattr", [v, VStr(name), val])
             return [("next", st, None)]
-        if isinstance(v, VFn) or isinstance(v, VClass):
+        if isinstance(v, (VFn, VClass, VModule, VConst)):
             st.emit("setattr", [v, VStr(name), val])
             return [("next", st, None)]
         raise EngineError(f"attribute store on {v!r}")
